@@ -27,7 +27,10 @@ RULE = ('generated directories covering every single-factor variation and random
         'names; (n,) vs (n,1) vectors; presence/absence of spike_clusters, amplitudes, whitening, whitening inverse, '
         'shanks, probes, similar templates, features, template features, raw data (1..3 files, more channels than '
         'the channel map); dense vs sparse templates; id/time dtypes; NaN/inf cells incl. an all-NaN template; extra '
-        'spike_*.npy attributes of right and wrong length (incl. files holding a single value); non-monotonic times in both layouts (must be rejected); ALF '
+        'spike_*.npy attributes of right and wrong length (incl. files holding a single value); non-monotonic times in both layouts (must be rejected); '
+        'directories the loader must refuse for another reason (a mandatory file missing, a stored dtype outside a whitelist, no spike at all, two cluster files): '
+        'the directory is hashed around EVERY refused load and what it leaves behind is compared with the model (nothing, or the cluster copy); '
+        'spike_templates uint16, spike_clusters int64/uint32/uint16, spike_times int16/uint16; dense pc_features without pc_feature_ind; the created spike_clusters.npy opened and compared byte for byte with the spike-template file; ALF '
         'seconds given as exact dyadic rationals whose product with the rate has fractional part .25/.5/.75 (samples = '
         'round half to even), as float32 seconds late in a long recording (the product must not be formed in single precision), '
         'as realistic non-dyadic float64 seconds (inexact float product: judged to within its rounding error); float values '
@@ -133,7 +136,10 @@ def _collect(m, case):
         spike_attributes={k: _cells(v) for k, v in m.spike_attributes.items()},
         metadata={f: {str(k): v for k, v in dd.items()} for f, dd in m.metadata.items()},
         n_spikes=int(m.n_spikes), n_channels=int(m.n_channels), n_templates=int(m.n_templates), duration=float(m.duration),
-        features=S(m.sparse_features), template_features=S(m.sparse_template_features))
+        features=S(m.sparse_features), template_features=S(m.sparse_template_features),
+        # attributes _load_data derives from loaded arrays (np.unique, model.py:369, 376, 404-405)
+        template_ids=[int(x) for x in m.template_ids], cluster_ids=[int(x) for x in m.cluster_ids],
+        probes=[int(x) for x in m.probes], n_probes=int(m.n_probes))
     # stored precision of the float arrays that are shown as they are in the files
     out['dtypes'] = dict(amplitudes=None if m.amplitudes is None else str(m.amplitudes.dtype),
                          templates=None if m.sparse_templates is None else str(m.sparse_templates.data.dtype),
@@ -287,7 +293,24 @@ def _load_dir(d, files, case, again=True, write=True):
             entry.symlink_to(d.name, target_is_directory=True)
     before = _hash(d)
     before_out = [_hash(q) for q in outside]
-    m = load_model(entry / 'params.py')
+    try:
+        m = load_model(entry / 'params.py')
+    except Exception as e:  # noqa
+        # a rejected / failed load: what it left in the directory is part of the statement
+        import traceback
+        import os as _os
+        where = ''
+        for fr in reversed(traceback.extract_tb(e.__traceback__)):
+            if 'phylib' in fr.filename:
+                where = '%s:%d' % (_os.path.basename(fr.filename), fr.lineno)
+                break
+        after = _hash(d)
+        return dict(load_raised=type(e).__name__, msg=str(e)[:300], where=where,
+                    changed=sorted(k for k in before if before[k] != after.get(k)),
+                    created=sorted(k for k in after if k not in before),
+                    created_clusters_is_copy=_clusters_is_copy(d, before, after),
+                    outside=sorted('%s/%s' % (q.name[len(d.name):], k) for q, b in zip(outside, before_out)
+                                   for k, h in _hash(q).items() if b.get(k) != h))
     try:
         out = _collect(m, case)
         if case.get('use_then_reinspect') and again:
@@ -304,8 +327,9 @@ def _load_dir(d, files, case, again=True, write=True):
     # the directories the links of the dataset point into: nothing created, nothing modified there
     out['outside'] = sorted('%s/%s' % (q.name[len(d.name):], k) for q, b in zip(outside, before_out)
                             for k, h in _hash(q).items() if b.get(k) != h)
-    # contents of the created files: the cluster copy is the template file, the created inverse is an
+    # contents of the created files: the cluster copy is the template file (byte for byte), the created inverse is an
     # inverse of the whitening matrix the model shows
+    out['created_clusters_is_copy'] = _clusters_is_copy(d, before, after)
     if 'whitening_mat_inv.npy' in out['created']:
         wmi_file = np.load(d / 'whitening_mat_inv.npy')
         wm = np.asarray(_arr_of(out['wm']), dtype=float)
@@ -315,8 +339,18 @@ def _load_dir(d, files, case, again=True, write=True):
     # a second model opened on the directory the first one left behind shows the same dataset
     out2 = _load_dir(d, {}, case, again=False, write=False)
     out['reopen_diff'] = sorted(k for k in LAYOUT_KEYS if out.get(k) != out2.get(k)) + \
-        (['files'] if out2['changed'] or out2['created'] or out2['outside'] else [])
+        (['files'] if out2['changed'] or out2['created'] or out2['outside'] else []) + \
+        (['second load raised %s' % out2['load_raised']] if 'load_raised' in out2 else [])
     return out
+
+
+def _clusters_is_copy(d, before, after):
+    """a created spike_clusters.npy, opened: True iff it is byte-identical to a spike-template file of the directory
+    ("the spike-cluster copy"); None when no such file was created"""
+    if 'spike_clusters.npy' in before or 'spike_clusters.npy' not in after:
+        return None
+    return any(h == after['spike_clusters.npy'] for n_, h in before.items()
+               if n_.startswith(('spike_templates', 'spikes.templates')))
 
 
 def _arr_of(cells):
@@ -329,7 +363,7 @@ def impl(case):
         return [int(x) for x in np.round(np.array([n / d for n, d in case['qs']], dtype='float64'))]
     with C.scratch_dir() as d:
         out = _load_dir(d / 'ks', case['files'], case)
-        if case.get('also_alf'):
+        if case.get('also_alf') and 'load_raised' not in out:
             # load_layout_independent: the same arrays under ALF names (+ the times in seconds)
             files = {ALF_OF.get(n, n): f for n, f in case['files'].items()}
             st = case['files']['spike_times.npy']
@@ -364,6 +398,22 @@ def _loose_sample_idx(case):
             and Fraction(t) * Fraction(case['rate']) != Fraction(float(np.float64(t) * np.float64(case['rate'])))}
 
 
+WHITELIST = dict(spike_templates=(('spike_templates.npy', 'spikes.templates'), ('uint16', 'uint32', 'int32', 'int64', 'float32', 'float64')),
+                 channel_map=(('channel_map.npy', 'channels.rawInd'), ('uint32', 'int32', 'int64')),
+                 templates=(('templates.npy', 'templates.waveforms.'), ('float32', 'float64')))
+
+
+def _refused_dtypes(case):
+    """attributes whose stored dtype is outside the loader's whitelist (model.py:548, 611, 712; a float spike-template file
+    is converted to int32 first, model.py:604-605).  Decided on the file the model will pick only when there is one
+    candidate; generated cases never store two candidates of a refused dtype."""
+    bad = []
+    for key, (pats, okd) in WHITELIST.items():
+        if any(n_.startswith(pats) and f['dtype'] not in okd for n_, f in case['files'].items()):
+            bad.append(key)
+    return bad
+
+
 def _rat(q):
     q = Fraction(q)
     return int(q.numerator) if q.denominator == 1 else [int(q.numerator), int(q.denominator)]
@@ -393,7 +443,7 @@ def model_query(case, impl_res):
     if case.get('raw'):
         raw = dict(sizes=[len(b) for b in _raw_bytes(case)], offset=case['offset'], itemsize=2)
     return dict(p=PID, op='load_full', files=files, rate=_rat(Fraction(case['rate'])), tden=tden, ncd=case['ncd'],
-                one=ONE, raw=raw, items=case.get('trace_items') or [])
+                one=ONE, raw=raw, items=case.get('trace_items') or [], bad=_refused_dtypes(case))
 
 
 def judge(case, impl_res, ans):
@@ -405,24 +455,43 @@ def judge(case, impl_res, ans):
             return 'MACHINERY: np.round %s differs from the model\'s round-half-even %s on %s' % (
                 impl_res.get('ok'), m['model'], case['qs'])
         return None
-    if case.get('expect_reject'):
-        if m.get('error') != 'non_monotone':
-            return 'MACHINERY: model does not reject the non-monotonic case'
-        if impl_res.get('raised') != 'ValueError':
-            return 'SPEC: non-monotonic spike times were not rejected (%s)' % (impl_res.get('raised') or 'loaded')
-        return None
-    if case.get('expect_conflict'):
-        if not str(m.get('error', '')).startswith('conflict') and not case.get('expect_reject'):
-            return 'MACHINERY: model does not refuse the directory with two cluster files (%s)' % m.get('error')
-        if 'raised' not in impl_res:
-            return 'SPEC: a directory holding both spike_clusters.npy and spikes.clusters.npy was loaded'
+    if 'raised' in impl_res:
+        return 'SPEC: the harness around load_model raised %s (%s) at %s' % (impl_res['raised'], impl_res['msg'], impl_res['where'])
+    ok = impl_res['ok']
+    anyo = m.get('any') or {}
+    out_any = (anyo.get('outcome') or {}).get('error')
+    if case.get('expect_reject') or case.get('expect_conflict') or case.get('expect_fail'):
+        # a load that must be refused: the model (`C04.loadAny`) names the refusal AND the directory it leaves
+        exp = 'non_monotone' if case.get('expect_reject') else ('conflict' if case.get('expect_conflict') else case['expect_fail'])
+        if not str(out_any or '').startswith(exp):
+            return 'MACHINERY: model outcome %r, the case expects %r' % (out_any, exp)
+        if case.get('expect_reject') and m.get('error') != 'non_monotone':
+            return 'MACHINERY: C04.load does not reject the non-monotonic case'
+        if 'load_raised' not in ok:
+            return 'SPEC: %s: the dataset was loaded' % ('non-monotonic spike times were not rejected' if case.get('expect_reject') else
+                                                         'a directory that must be refused (%s)' % exp)
+        if case.get('expect_reject') and ok['load_raised'] != 'ValueError':
+            return 'SPEC: non-monotonic spike times were not rejected (%s)' % ok['load_raised']
+        if ok['changed']:
+            return 'SPEC: a refused load (%s) modified pre-existing files: %s' % (exp, ok['changed'])
+        if ok.get('outside'):
+            return 'SPEC: a refused load (%s) created / modified files OUTSIDE the dataset directory: %s' % (exp, ok['outside'])
+        exp_created = sorted(f for f in anyo['files_after'] if f not in case['files'])
+        if anyo.get('early') and exp_created:
+            return 'MACHINERY: the model creates %s in a rejection it calls early' % exp_created
+        if sorted(ok['created']) != exp_created:
+            return 'SPEC: a refused load (%s, %s at %s) left %s behind, expected exactly %s' % (
+                exp, ok['load_raised'], ok['where'], ok['created'], exp_created)
+        if ok.get('created_clusters_is_copy') is False:
+            return 'SPEC: the created spike_clusters.npy is not a byte copy of the spike-template file'
         return None
     if 'error' in m:
         return 'MACHINERY: model error %s on an in-domain directory' % m['error']
-    if 'raised' in impl_res:
-        return 'SPEC: load_model raised %s (%s) at %s on a well-formed dataset' % (
-            impl_res['raised'], impl_res['msg'], impl_res['where'])
-    ok = impl_res['ok']
+    if out_any is not None or anyo.get('files_after') != m['files_after']:
+        return 'MACHINERY: C04.loadAny (%s, %s) disagrees with C04.loadFull (%s) on a loaded directory' % (
+            out_any, anyo.get('files_after'), m['files_after'])
+    if 'load_raised' in ok:
+        return 'SPEC: load_model raised %s (%s) at %s on a well-formed dataset' % (ok['load_raised'], ok['msg'], ok['where'])
     # frame
     if ok['changed']:
         return 'SPEC: loading modified pre-existing files: %s' % ok['changed']
@@ -516,6 +585,12 @@ def judge(case, impl_res, ans):
     if ok['duration'] != float(_frac(m['duration'])):
         return 'SPEC: duration %r, expected %r (samples of the raw files over the rate / last spike time)' % (
             ok['duration'], float(_frac(m['duration'])))
+    if ok.get('created_clusters_is_copy') is False:
+        return 'SPEC: the created spike_clusters.npy is not a byte copy of the spike-template file'
+    # attributes derived from the loaded arrays
+    for key in ('template_ids', 'cluster_ids', 'probes', 'n_probes'):
+        if ok[key] != m[key]:
+            return 'SPEC: %s = %s, expected %s (the distinct values of the loaded array, increasing)' % (key, ok[key], m[key])
     if ok.get('layout_diff'):
         return 'SPEC: the same arrays under ALF names load to different %s' % ok['layout_diff']
     if ok.get('created_wmi_ok') is False:
@@ -543,7 +618,9 @@ def tally(rep, case, impl_res, ans):
 
 def classify(case, impl_res, ans, why):
     return dict(kind=why.split(':')[0], what=why.split(':')[1].strip()[:40], alf='alf' in case.get('tags', []),
-                nan_template='all_nan_template' in case.get('tags', []), raised=impl_res.get('raised'), where=impl_res.get('where'))
+                nan_template='all_nan_template' in case.get('tags', []),
+                raised=impl_res.get('raised') or (impl_res.get('ok') or {}).get('load_raised'),
+                where=impl_res.get('where') or (impl_res.get('ok') or {}).get('where'))
 
 
 def shrink(case):
@@ -599,6 +676,53 @@ def _attr_name_class(n):
     return 'extra_attr_name_reserved_name_in_other_case'
 
 
+def _make_refused(rng, case, files, tags, alf, v):
+    """turn the directory into one the loader must refuse for a reason OTHER than non-monotonic times / two cluster files:
+    a mandatory file missing, a stored dtype outside a whitelist, no spike at all.  What matters is what the failed
+    load leaves in the directory (model: `C04.loadAny`)."""
+    def named(*pre):
+        return [n for n in files if n.startswith(pre)]
+    kind = rng.randrange(8)
+    if kind == 0:
+        for n in named('spike_templates', 'spikes.templates'):
+            del files[n]
+        case['expect_fail'] = 'missing spike templates'
+    elif kind == 1:
+        for n in named('channel_map', 'channels.rawInd'):
+            del files[n]
+        case['expect_fail'] = 'missing channel map'
+    elif kind == 2:
+        for n in named('channel_positions', 'channels.localCoordinates'):
+            del files[n]
+        case['expect_fail'] = 'missing channel positions'
+    elif kind == 3:
+        for n in named('spike_times.npy', 'spikes.times'):
+            del files[n]
+        case['expect_fail'] = 'missing spike times'
+    elif kind == 4:
+        for n in named('spike_templates', 'spikes.templates'):
+            files[n]['dtype'] = rng.pick(['int16', 'uint64', 'int8'])
+        case['expect_fail'] = 'dtype spike templates'
+    elif kind == 5:
+        for n in named('channel_map', 'channels.rawInd'):
+            files[n]['dtype'] = rng.pick(['uint16', 'int16', 'uint64'])
+        case['expect_fail'] = 'dtype channel map'
+    elif kind == 6 and named('templates.npy', 'templates.waveforms.'):
+        for n in named('templates.npy', 'templates.waveforms.'):
+            files[n]['dtype'] = 'float16'
+        case['expect_fail'] = 'dtype templates'
+    else:
+        # no spike at all
+        for n in [n for n in files if not n.startswith(('channel', 'templates.', 'template_ind', 'whitening', 'similar'))]:
+            del files[n]
+        files['spikes.times.npy' if alf else 'spike_times.npy'] = F('float64' if alf else 'uint64', v(0), [])
+        files['spikes.templates.npy' if alf else 'spike_templates.npy'] = F('uint32', v(0), [])
+        case['expect_fail'] = 'empty_train'
+        case.pop('use_then_reinspect', None)
+    tags.append('refused: ' + case['expect_fail'])
+    tags.append('refused_' + ('with' if named('spike_clusters', 'spikes.clusters') else 'without') + '_cluster_file')
+
+
 def make_case(rng, i):
     tags = []
     float_times_reject = False
@@ -612,7 +736,9 @@ def make_case(rng, i):
     v = (lambda n: [n, 1]) if vec2d else (lambda n: [n])
     files = {}
     N = (lambda ks, al: al if alf else ks)
-    tdt = rng.pick(['uint64', 'int64', 'int32', 'uint32'])
+    # integer dtypes of the times: every integer dtype loads (there is no whitelist on spike_times.npy); the narrow ones
+    # only for the small KiloSort-layout sample numbers generated here
+    tdt = rng.pick(['uint64', 'int64', 'int32', 'uint32'] + ([] if alf else ['int16', 'uint16']))
     if alf:
         tags.append('alf')
         if i % 12 == 7:
@@ -681,9 +807,10 @@ def make_case(rng, i):
             tags.append('float_spike_samples_with_nan')
             if any(b < a for a, b in zip(scrubbed, scrubbed[1:])):
                 float_times_reject = True
-    files[N('spike_templates.npy', 'spikes.templates.npy')] = F(rng.pick(['uint32', 'int32', 'int64']), v(ns), st)
+    files[N('spike_templates.npy', 'spikes.templates.npy')] = F(rng.pick(['uint32', 'int32', 'int64', 'uint16']), v(ns), st)
     if rng.random() < .6:
-        files[N('spike_clusters.npy', 'spikes.clusters.npy')] = F('int32', v(ns), [rng.randrange(nt + 2) for _ in range(ns)])
+        # (any integer dtype: the loader converts the clusters to int32)
+        files[N('spike_clusters.npy', 'spikes.clusters.npy')] = F(rng.pick(['int32', 'int32', 'int64', 'uint32', 'uint16']), v(ns), [rng.randrange(nt + 2) for _ in range(ns)])
     else:
         tags.append('no_spike_clusters')
     if rng.random() < .7:
@@ -762,6 +889,10 @@ def make_case(rng, i):
         files['pc_features.npy'] = F('float32', [ns, npcs, nl], [_fval(rng, 'float32', -4, 5) for _ in range(ns * npcs * nl)])
         files['pc_feature_ind.npy'] = F('uint32', [nt, nl], [c for _ in range(nt) for c in rng.sample(range(nc), nl)])
         tags.append('features')
+        if rng.random() < .3:
+            # dense features: no column table next to pc_features.npy
+            del files['pc_feature_ind.npy']
+            tags.append('features_dense_without_pc_feature_ind')
     if 'features' in tags and rng.random() < .5:
         # features stored for a subset of the spikes only, with the table of their spike ids; non-finite cells
         # stay as they are (the array is memory-mapped)
@@ -916,6 +1047,8 @@ def make_case(rng, i):
         files['spike_times.npy'] = F(tdt, v(ns), bad)
         case['expect_reject'] = True
         tags.append('non_monotonic')
+    if i % 16 == 10 and not (case.get('expect_reject') or case.get('expect_conflict')):
+        _make_refused(rng, case, files, tags, alf, v)
     if rng.random() < .3:
         # storage form of the directory: some of its files are symbolic links
         links = {}
@@ -952,7 +1085,7 @@ def gen(tier, rng):
     for i in range(400 if q else 6000):
         c = make_case(rng, i)
         st = c['files'].get('spike_times.npy')
-        if st is not None and not c.get('expect_reject') and 'float' not in st['dtype'] and i % 3 != 1 \
+        if st is not None and not c.get('expect_reject') and not c.get('expect_fail') and 'float' not in st['dtype'] and i % 3 != 1 \
                 and not any(n.startswith(('spikes.', 'channels.', 'templates.w')) for n in c['files']):
             c['also_alf'] = True      # load the same arrays a second time under ALF names
         yield c
